@@ -8,10 +8,11 @@ SSEP = [", ", "; ", "\n"]
 GSEP = [", ", "; ", "\n", "\n\n"]
 
 
-def concretise(abstract, rng, max_sec=36):
+def concretise(abstract, rng, max_sec=36, block_pool=None, tr_map=None):
     """abstract = {"layout", "groups": [{"tr", "secs": [kind, ...]}]} -> concrete doc with numbers and blocks."""
     nblocks = sum(len(g["secs"]) for g in abstract["groups"])
-    texts = rng.sample(R.BLOCKS, nblocks) if nblocks <= len(R.BLOCKS) else [rng.choice(R.BLOCKS) for _ in range(nblocks)]
+    pool = block_pool or R.BLOCKS
+    texts = rng.sample(pool, nblocks) if nblocks <= len(pool) else [rng.choice(pool) for _ in range(nblocks)]
     blocks, groups, b = {}, [], 0
     for g in abstract["groups"]:
         secs = []
@@ -28,7 +29,7 @@ def concretise(abstract, rng, max_sec=36):
                 nums, conns = [a, a + rng.randint(1, 2), rng.randint(1, max_sec)], ["THRU", "AND"]
             secs.append({"nums": nums, "conns": conns, "block": b})
             blocks[b] = texts[b - 1]
-        groups.append({"tr": g["tr"], "secs": secs})
+        groups.append({"tr": (tr_map or {}).get(g["tr"], g["tr"]), "secs": secs})
     return {"layout": abstract["layout"], "groups": groups, "blocks": blocks}
 
 
@@ -37,13 +38,13 @@ def usable(doc):
     return True
 
 
-def render_doc(doc, rng, colons=True, plain=False, str_connector=None):
+def render_doc(doc, rng, colons=True, plain=False, str_connector=None, tr_templates=None):
     lay = doc["layout"]
     blocks = doc["blocks"]
     gparts = []
     ssep = ", " if plain else rng.choice(SSEP)
     for g in doc["groups"]:
-        tr = R.render_tr(g["tr"], rng, plain=plain)
+        tr = R.render_tr(g["tr"], rng, plain=plain, templates=tr_templates)
         sparts = []
         for sg in g["secs"]:
             blk = blocks[sg["block"]]
